@@ -1,22 +1,29 @@
-(** Property C02, third pass, item (3): the class of the un-parser theorem with the conjuncts
-    [require_equals], value terminators and hyphen / negative-number values lifted.
+(** Property C02, third and fourth pass: the class of the un-parser theorem with the conjuncts of [conv] lifted.
 
     Executable Gallina only.  The items, their rendering and their meaning ([render], [apply_items],
     [occs], [item_pst], ...) are those of Unparse.v, unchanged; what changes is the CLASS:
 
-    * [convx c] (built command): as [conv c], but an argument may have [require_equals], a value
-      terminator, and -- unless it is a positional -- [allow_hyphen_values] / [allow_negative_numbers].
-      Fourth pass: positionals may be [last(true)] / [trailing_var_arg] (the tails are in UnparseXTrail.v).
-      Positionals may take hyphen / negative-number values when their run does not stay open ([posx_ok], [hyphen_tok]).
+    * [convx c] (built command): [assert_app], no [subcommand_precedence_over_arg], and every OPTION free of
+      [last] / [trailing_var_arg].  Nothing else: [require_equals], value terminators, hyphen / negative-number
+      values (options and positionals), [last(true)] / [trailing_var_arg] positionals, low-index multiples and
+      [allow_missing_positional] are all inside (fourth pass); what they need is local to the items:
     * [wfx_items c pst pos its]: as [wf_items], with per occurrence
       - an option with [require_equals] is only spelled [--o=v] / [-o=v] (clusters [-abco=v] included);
       - a separate value is not the option's (or the positional's) terminator;
       - a separate value of an option with hyphen values is ANY token ([--], [--x], [-x] included); of
         an option with negative-number values also a token [-<number>];
       - an occurrence with separate values of an option with hyphen / negative-number values is complete
-        ([num_args.max] values: otherwise it would swallow the next item as a value).
+        ([num_args.max] values: otherwise it would swallow the next item as a value);
+      - a run of positional values ([posx_ok]) is not for a [last(true)] / [trailing_var_arg] positional, not at a
+        counter where the look-ahead of the counter correction is on ([lookahead_at]), and a positional whose run
+        stays open takes no hyphen / negative-number values; a positional that is left behind after one value may
+        get a flag-looking token the parser hands back as a possible hyphen value ([hyph_single], [hyphen_tok]);
+      - while the counter points at a positional with hyphen / negative-number values a short cluster is a
+        cluster only if it is not such a token ([cluster_clear]).
     * the explicit terminator token is not an item: UnparseXTree.v treats it between two item lists
-      ([loop_terminator_x], [loop_items_term_x], [gmw_items_term_x]). *)
+      ([loop_terminator_x], [loop_items_term_x], [gmw_items_term_x]); the tails of a level ([--] + values, the runs
+      of [trailing_var_arg] / hyphen-valued multi positionals, the look-ahead run) are in UnparseXTrail.v /
+      UnparseXLook.v and enter the trees of UnparseYTree.v. *)
 From ClapModel Require Import Base.Bytes Base.Machine Base.Utf8 Lex.OsStrExtModel.
 From ClapModel Require Import Parse.Cmd Parse.Build Parse.Valid Parse.Matcher Parse.Errors Parse.Validator Parse.Parser.
 From ClapModel Require Import ParseProofs.Actions ParseProofs.Unparse ParseProofs.Escape.
@@ -39,7 +46,7 @@ Definition convx : bool :=
     They switch on the LOOK-AHEAD of the positional counter correction at the second-to-last positional (unless that
     positional has a value terminator): the token goes to the LAST positional when the next token looks like a flag or a
     subcommand, or when there is none.  An ordinary run of positional values is never at that counter ([posx_ok]); the
-    look-ahead run is a tail of the level (UnparseXTrail.v [wfx_look], tree constructor [YLook]). *)
+    look-ahead run is a tail of the level (UnparseXLook.v [wfx_look], tree constructor [YLook]). *)
 Definition is_terminated (pos : N) : bool := match get_pos c pos with Some a => is_some (a_term a) | None => false end.
 Definition lookahead_at (pos : N) : bool :=
   (low_index_mults_any c || is_set s_allow_missing_pos c) && (pos + 1 =? positional_count c) && negb (is_terminated pos).
